@@ -90,6 +90,77 @@ BAD_TEXTS = [
 ]
 
 
+PROJECTS = [
+    {"files": {
+        "lib/util.exps": "macro u($a) {\n    se_Play($a);\n    if ($X == 1) {\n        return;\n    }\n    b($a);\n}\n",
+        "lib/mid.exps": "import \"./util.exps\";\nmacro mid($v) {\n    ~u($v);\n    m($v, Position<'p', 1, 2.5>);\n}\n",
+        "main.exps": "import \"./lib/mid.exps\";\nimport \"./lib/util.exps\";\ndef 0 {\n    ~mid(1);\n    ~u(2);\n    end;\n}\n",
+        "other.exps": "import \"./lib/util.exps\";\ndef 0 {\n    ~u('x');\n    hold;\n}\ndef 1 for_actor(3) {\n    ~u(4);\n    return;\n}\n",
+        "deep/top.exps": "import \"../main_lib.exps\";\ndef 0 {\n    ~top(7);\n    end;\n}\n",
+        "main_lib.exps": "import \"./lib/mid.exps\";\nmacro top($q) {\n    ~mid($q);\n    t();\n}\n",
+     }, "lookup": []},
+    {"files": {
+        "inc/common.exps": "macro c($a) {\n    cc($a, 'two\nlines');\n}\n",
+        "inc/more.exps": "import \"common.exps\";\nmacro d() {\n    ~c(1);\n}\n",
+        "scripts/a.exps": "import \"common.exps\";\ndef 0 {\n    ~c(5);\n    end;\n}\n",
+        "scripts/b.exps": "import \"more.exps\";\nimport \"common.exps\";\ncoro K {\n    ~d();\n    ~c(2);\n    hold;\n}\n",
+     }, "lookup": ["inc"]},
+]
+
+
+PROJ_BASE = f"/tmp/esv_c11_{os.getpid()}"      # generated project files live here for the duration of the run
+
+
+def cleanup_projects() -> None:
+    import shutil
+    shutil.rmtree(PROJ_BASE, ignore_errors=True)
+
+
+def project_calls() -> list[list[dict]]:
+    """per project: one compile call per file (plus a macros_only variant for every file)"""
+    out = []
+    for pr in PROJECTS:
+        calls = []
+        for rel in pr["files"]:
+            base = {"kind": "compile", "text": pr["files"][rel], "lookup": [], "project": {"files": pr["files"], "main": rel, "lookup": pr["lookup"], "base": PROJ_BASE}}
+            calls.append(base)
+            calls.append(dict(copy.deepcopy(base), macros_only=True))
+        out.append(calls)
+    return out
+
+
+def fixture_projects() -> list[list[dict]]:
+    """the repo's import fixtures as import graphs: every .exps file of a fixture directory as a top-level compile"""
+    out = []
+    base = os.path.join(core.REPO, "tests", "fixtures", "compiler", "macros_imports_test")
+    if os.path.isdir(base):
+        for d in sorted(os.listdir(base)):
+            files = sorted(f for f in os.listdir(os.path.join(base, d)) if f.endswith(".exps"))
+            if len(files) < 2:
+                continue
+            calls = []
+            for f in files:
+                pth = os.path.join(base, d, f)
+                c = {"kind": "compile", "text": open(pth, encoding="utf-8").read(), "file": pth, "lookup": []}
+                calls.append(c)
+                calls.append(dict(copy.deepcopy(c), macros_only=True))
+            out.append(calls)
+    return out
+
+
+def rs_multiline() -> list[dict]:
+    """routine sets with constant strings that contain newlines in ordinary ops, at several nesting depths"""
+    s1 = {"s": "line one\nline two"}
+    s2 = {"s": "  a\n\nb "}
+    ls = {"ls": [["english", "x\ny"], ["german", "z"]]}
+    return [
+        rsn([[op(0, "message_Talk", [s1]), op(1, "End")]]),
+        rsn([[op(0, "Branch", [{"c": "$X"}, 1, 3]), op(1, "a", [s1, 5]), op(2, "End"), op(3, "b", [s2, ls]), op(4, "End")]]),
+        rsn([[op(0, "Switch", [{"c": "$X"}]), op(1, "Case", [1, 3]), op(2, "Jump", [5]), op(3, "c", [s2]), op(4, "Jump", [5]), op(5, "d", [s1]), op(6, "End")],
+             [op(7, "e", [ls, s1]), op(8, "Return")]]),
+    ]
+
+
 def fixture_texts() -> list[dict]:
     out = []
     base = os.path.join(core.REPO, "tests", "fixtures", "compiler", "macros_imports_test")
@@ -141,9 +212,12 @@ def rs_to_cli(rs: dict) -> list | None:
     return routines
 
 
+PLACES = ("slot", "keep", "tag", "obj", "store")     # where a call is run, not what it is given
+
+
 def spec_key(call: dict) -> str:
     """the call as an input: without the places it is run at (slot / keep)"""
-    c = {k: v for k, v in call.items() if k not in ("slot", "keep", "tag")}
+    c = {k: v for k, v in call.items() if k not in PLACES}
     if c["kind"] == "convert_again":
         c = {"kind": "decompile", "rs": call["rs"]}
     return json.dumps(c, sort_keys=False)
@@ -151,7 +225,7 @@ def spec_key(call: dict) -> str:
 
 def alone(call: dict) -> dict:
     """the call as run for its reference (dict orders kept: the order of a language string's entries is part of the input)"""
-    c = {k: copy.deepcopy(v) for k, v in call.items() if k not in ("slot", "keep", "tag")}
+    c = {k: copy.deepcopy(v) for k, v in call.items() if k not in PLACES}
     if c["kind"] == "convert_again":
         c = {"kind": "decompile", "rs": copy.deepcopy(call["rs"])}
     return c
@@ -167,6 +241,9 @@ class Pools:
         self.rs_broken: list[dict] = []
         self.cli: list[dict] = []
         self.cd: list[dict] = []          # compile_decompile
+        self.graphs: list[list[dict]] = []   # import graphs: compile calls of the files of one project
+        self.rs_ml: list[dict] = []       # decompile calls on sets with multi-line constant strings
+        self.cli_build: list[dict] = []
 
 
 def build_pools(run: core.Run, jobs: int, n_prog: int) -> tuple[Pools, dict, Counter]:
@@ -233,7 +310,19 @@ def build_pools(run: core.Run, jobs: int, n_prog: int) -> tuple[Pools, dict, Cou
         if j is not None and len(pools.cli) < 5:
             pools.cli.append({"kind": "cli_read", "routines": j})
     pools.cd = [{"kind": "compile_decompile", "text": c["text"]} for c in pools.texts[:10] if "file" not in c]
-    reference(pools.rs + pools.rs_abort + pools.rs_switch + pools.rs_broken + pools.cli + pools.cd)
+    pools.cli_build = [{"kind": "cli_build", "text": c["text"]} for c in pools.texts[:8] if "file" not in c]
+    pools.rs_ml = [{"kind": "decompile", "rs": x} for x in rs_multiline()]
+    for c in pools.rs:
+        if any(isinstance(q, dict) and "s" in q and "\n" in q["s"] for rt in c["rs"]["ops"] for o in rt for q in o["params"]) and len(pools.rs_ml) < 12:
+            pools.rs_ml.append(copy.deepcopy(c))
+    pools.graphs = project_calls() + fixture_projects()
+    ssbs = [dict(copy.deepcopy(c), kind="ssbs_decompile") for c in pools.rs_ml + pools.rs + pools.rs_switch[:3]]
+    reference(pools.rs + pools.rs_abort + pools.rs_switch + pools.rs_broken + pools.cli + pools.cd + pools.cli_build + pools.rs_ml + ssbs
+              + [c for g in pools.graphs for c in g])
+    pools.graphs = [[c for c in g if not refs[spec_key(c)].get("no_answer")] for g in pools.graphs]
+    pools.graphs = [g for g in pools.graphs if len(g) >= 2]
+    pools.rs_ml = [c for c in pools.rs_ml if not refs[spec_key(c)].get("no_answer") and not refs[spec_key(dict(c, kind="ssbs_decompile"))].get("no_answer")]
+    pools.cli_build = [c for c in pools.cli_build if not refs[spec_key(c)].get("no_answer")]
     for name in ("rs", "rs_abort", "rs_switch", "rs_broken", "cli", "cd"):
         setattr(pools, name, [c for c in getattr(pools, name) if not refs[spec_key(c)].get("no_answer")])
     return pools, refs, stats
@@ -284,6 +373,87 @@ def gen_history(r: random.Random, pools: Pools, maxlen: int, hid: int) -> list[d
     return calls
 
 
+def hist_import_graph(r: random.Random, pools: Pools, hid: int) -> list[dict]:
+    """ONE compiler object over files of one import graph, in a random order (libraries before or after their importers,
+    macros-only compiles before full compiles, a file twice)"""
+    g = r.choice(pools.graphs)
+    slot = f"g{hid}"
+    n = r.randint(2, min(5, len(g)))
+    calls = [dict(copy.deepcopy(c), slot=slot) for c in r.sample(g, n)]
+    if r.random() < 0.3:
+        calls.append(copy.deepcopy(calls[0]))
+    if r.random() < 0.3:
+        calls.insert(r.randrange(len(calls)), {"kind": "gc"})
+    return calls
+
+
+def hist_shared_objects(r: random.Random, pools: Pools, hid: int) -> list[dict]:
+    """the SAME routine-set objects handed to the decompilers in every order (ExplorerScript / SsbScript / convert() again)"""
+    src = r.choice(pools.rs_ml if (pools.rs_ml and r.random() < 0.6) else (pools.rs or pools.rs_switch))
+    key = f"o{hid}"
+    calls: list[dict] = []
+    for i in range(r.randint(2, 4)):
+        c = r.random()
+        if c < 0.45:
+            calls.append({"kind": "ssbs_decompile", "rs": copy.deepcopy(src["rs"]), "obj": key})
+        elif c < 0.85:
+            calls.append({"kind": "decompile", "rs": copy.deepcopy(src["rs"]), "obj": key})
+        else:
+            kk = f"{key}_{i}"
+            calls.append({"kind": "decompile", "rs": copy.deepcopy(src["rs"]), "obj": key, "keep": kk})
+            calls.append({"kind": "convert_again", "keep": kk, "rs": copy.deepcopy(src["rs"])})
+    return calls
+
+
+def hist_compiled_objects(r: random.Random, pools: Pools, refs: dict, hid: int) -> list[dict]:
+    """the objects a compile() returned, decompiled by both decompilers in some order, then compiled again"""
+    cands = [c for c in pools.texts if "file" not in c and not refs[spec_key(c)].get("no_answer") and refs[spec_key(c)].get("full", {}).get("ops") is not None
+             and all(i is not None for i in refs[spec_key(c)]["full"]["infos"])]
+    if not cands:
+        return hist_shared_objects(r, pools, hid)
+    t = r.choice(cands)
+    full = refs[spec_key(t)]["full"]
+    rs = {"infos": full["infos"], "coros": full["coros"], "ops": [[{"off": o["off"], "name": o["name"], "params": o["params"]} for o in x] for x in full["ops"]]}
+    key = f"c{hid}"
+    calls = [dict(copy.deepcopy(t), store=key, slot=r.choice([None, "s1"]))]
+    if calls[0]["slot"] is None:
+        del calls[0]["slot"]
+    kinds = ["ssbs_decompile", "decompile"]
+    r.shuffle(kinds)
+    for k in kinds[: r.randint(1, 2)]:
+        calls.append({"kind": k, "rs": copy.deepcopy(rs), "obj": key})
+    calls.append(copy.deepcopy(t))
+    return calls
+
+
+def hist_cli_after_api(r: random.Random, pools: Pools, hid: int) -> list[dict]:
+    """the CLI modules' functions after API calls (and twice)"""
+    calls: list[dict] = []
+    if pools.texts:
+        calls.append(dict(copy.deepcopy(r.choice(pools.texts)), slot="s1"))
+    if pools.rs:
+        calls.append(copy.deepcopy(r.choice(pools.rs)))
+    for _ in range(r.randint(1, 3)):
+        if pools.cli_build and r.random() < 0.5:
+            calls.append(copy.deepcopy(r.choice(pools.cli_build)))
+        elif pools.cli:
+            calls.append(copy.deepcopy(r.choice(pools.cli)))
+    return calls
+
+
+def gen_any_history(r: random.Random, pools: Pools, refs: dict, maxlen: int, hid: int) -> list[dict]:
+    c = r.random()
+    if c < 0.55:
+        return gen_history(r, pools, maxlen, hid)
+    if c < 0.70 and pools.graphs:
+        return hist_import_graph(r, pools, hid)
+    if c < 0.84:
+        return hist_shared_objects(r, pools, hid)
+    if c < 0.92:
+        return hist_compiled_objects(r, pools, refs, hid)
+    return hist_cli_after_api(r, pools, hid)
+
+
 def witness_histories(pools: Pools) -> list[tuple[str, list[dict]]]:
     """the Lean counterexamples on the real code, plus the other process-wide state named by the property"""
     w = [("stale_memo", [{"kind": "decompile", "rs": rs_abort(30, 2)}, {"kind": "gc"}, {"kind": "decompile", "rs": rs_switch(30, 0)}])]
@@ -291,6 +461,16 @@ def witness_histories(pools: Pools) -> list[tuple[str, list[dict]]]:
         w.append(("cli_counter", [copy.deepcopy(pools.cli[0]), copy.deepcopy(pools.cli[0])]))
     w.append(("compiler_reuse", [{"kind": "compile", "text": MACRO_TEXTS[0], "lookup": [], "slot": "w"}, {"kind": "compile", "text": SSBS_TEXT, "lookup": [], "slot": "w"},
                                  {"kind": "compile", "text": BAD_TEXTS[1], "lookup": [], "slot": "w"}, {"kind": "compile", "text": MACRO_TEXTS[1], "lookup": [], "slot": "w"}]))
+    if pools.graphs:
+        g = pools.graphs[0]
+        lib = [c for c in g if c["project"]["main"] == "lib/util.exps" and not c.get("macros_only")] if "project" in g[0] else []
+        main = [c for c in g if c.get("project", {}).get("main") == "main.exps" and not c.get("macros_only")]
+        if lib and main:
+            w.append(("import_graph_one_compiler", [dict(copy.deepcopy(lib[0]), slot="wg"), dict(copy.deepcopy(main[0]), slot="wg"), dict(copy.deepcopy(lib[0]), slot="wg")]))
+    if pools.rs_ml:
+        x = pools.rs_ml[min(1, len(pools.rs_ml) - 1)]["rs"]
+        w.append(("same_objects_both_decompilers", [{"kind": "ssbs_decompile", "rs": copy.deepcopy(x), "obj": "wo"}, {"kind": "decompile", "rs": copy.deepcopy(x), "obj": "wo"},
+                                                    {"kind": "ssbs_decompile", "rs": copy.deepcopy(x), "obj": "wo"}]))
     rs = rs_switch(1, 1)
     w.append(("convert_twice", [{"kind": "decompile", "rs": rs, "keep": "w1"}, {"kind": "convert_again", "keep": "w1", "rs": rs}]))
     return w
@@ -300,7 +480,7 @@ def witness_histories(pools: Pools) -> list[tuple[str, list[dict]]]:
 # oracle, shrinking, diagnosis
 # ----------------------------------------------------------------------------------------------------------------------
 def observed(call: dict) -> bool:
-    return call["kind"] not in ("gc", "churn", "scrub", "reset_antlr")
+    return call["kind"] not in ("gc", "churn", "scrub", "reset_antlr", "reset_indent")
 
 
 def run_calls(calls: list[dict], full: Any = (), instrument: bool = False, timeout: float | None = None) -> Any:
@@ -339,7 +519,7 @@ def shrink(calls: list[dict], ref_digest: str, budget: int = 24) -> list[dict]:
 
 
 def field_diff(a: dict, b: dict) -> list[str]:
-    keys = sorted(set(a) | set(b))
+    keys = sorted(k for k in set(a) | set(b) if not k.startswith("_"))
     return [k for k in keys if a.get(k) != b.get(k)]
 
 
@@ -356,6 +536,13 @@ def diagnose(calls: list[dict], ref: dict) -> tuple[str, str, dict]:
     if kind_l == "convert_again":
         return "decompiler_object_convert_twice", "convert() called a second time on the same decompiler object gives " + \
             (f"{got['summary'].get('error')}" if "error" in got["summary"] else "another result") + " than the first call / a new decompiler object", detail
+    if kind_l in ("decompile", "ssbs_decompile") and last.get("obj") and not differs(calls[:-1] + [{"kind": "reset_indent"}, last], ref["digest"]):
+        return "text_depends_on_indent_left_on_shared_parameter_objects", \
+            f"{kind_l} of routine-set objects that an earlier call of the history has printed gives another {'/'.join(fd)} than on new objects / alone in a fresh process; " \
+            "the difference vanishes when the `indent` attributes of the parameter objects are set back to 0 before the call (a writer prints a multi-line string " \
+            "with the indent an earlier printing left on the object instead of setting it)", detail
+    if kind_l == "ssbs_decompile":
+        return "ssbscript_decompile_result_depends_on_history", f"SsbScript decompile result ({'/'.join(fd)}) differs after a history of {len(calls) - 1} call(s)", detail
     if kind_l in ("decompile", "compile_decompile"):
         if not differs(calls[:-1] + [{"kind": "scrub"}, last], ref["digest"]):
             prev_abort = [c for c, row in zip(calls[:-1], x["results"][:-1]) if c["kind"] == "decompile" and (row["summary"].get("fallback") or "error" in row["summary"])]
@@ -384,6 +571,10 @@ def diagnose(calls: list[dict], ref: dict) -> tuple[str, str, dict]:
             return "macro_resolution_order_not_reset_on_reused_compiler", \
                 f"compile() of {how} on a reused compiler object leaves macro_resolution_order of the previous file " \
                 f"({detail['after_history']['macro_order']} instead of {detail['alone']['macro_order']}): the attribute is not among those reset at the top of compile()", detail
+        if last.get("slot") and "error" in got["summary"] and "error" not in ref["summary"]:
+            return "reused_compiler_raises_where_fresh_compiles", \
+                f"compile() on a compiler object that has compiled {len([c for c in calls[:-1] if c['kind'] == 'compile'])} file(s) before raises {got['summary']['error']} " \
+                f"({got['summary'].get('msg', '')[:160]!r}) for a file that a fresh compiler object compiles", detail
         if last.get("slot"):
             return "reused_compiler_result_differs", f"compile() on a reused compiler object differs from a fresh object in {'/'.join(fd)}", detail
         return "compile_result_depends_on_history", f"compile result ({'/'.join(fd)}) differs after a history of {len(calls) - 1} call(s)", detail
@@ -475,7 +666,16 @@ def run(run: core.Run) -> int:
 
     # histories -> sessions
     witnesses = witness_histories(pools)
-    hists = [gen_history(run.rng, pools, maxlen, h) for h in range(n_hist)]
+    hists = [gen_any_history(run.rng, pools, refs, maxlen, h) for h in range(n_hist)]
+    # failing-input search when a model tie is broken: more histories of the shape that exercises the modelled code
+    targeted = 0
+    if ties.get("indent_model") and not ties["indent_model"].get("ok"):
+        hists += [hist_shared_objects(run.rng, pools, 100000 + h) for h in range(40)] + [hist_compiled_objects(run.rng, pools, refs, 110000 + h) for h in range(20)]
+        targeted += 60
+    if ties.get("compiler_model") and not ties["compiler_model"].get("ok") and pools.graphs:
+        hists += [hist_import_graph(run.rng, pools, 120000 + h) for h in range(40)] + [gen_history(run.rng, pools, maxlen, 130000 + h) for h in range(20)]
+        targeted += 60
+    stats["targeted_histories_after_broken_tie"] = targeted
     sessions: list[dict] = [{"name": "witness:" + nm, "calls": calls} for nm, calls in witnesses]
     for i in range(0, len(hists), per_session):
         sessions.append({"name": f"generated:{i}", "calls": [c for h in hists[i:i + per_session] for c in h]})
@@ -516,6 +716,11 @@ def run(run: core.Run) -> int:
                 input_changed += 1
                 run.violation("input_meaning_changed_by_decompile", "the caller's routine set differs (beyond indent) after convert()", {"calls": s["calls"][: i + 1][-3:]})
             indent_changes += row.get("indent_changed", 0)
+            if row.get("ctor_changed"):
+                stats["compile_calls_that_changed_constructor_state"] += 1
+                if stats["compile_calls_that_changed_constructor_state"] == 1:
+                    run.broken_tie("correspondence C11: compile() changed the object's constructor state (lookup_paths / recursion_check / perf. variable name), "
+                                   "which the compiler-object model (compile_ctor) says it never does", {"calls": [{k: v for k, v in x.items() if k != "project"} for x in s["calls"][: i + 1][-3:]]})
             ref = refs.get(spec_key(c))
             if ref is None or ref.get("no_answer"):
                 continue
@@ -593,7 +798,8 @@ def run(run: core.Run) -> int:
     if not prep["proofs_ok"] or not aud["ok"] or drv is None:
         run.broken_tie("Lean obligations of C11 do not check (build/audit)", {"theorems": THEOREMS, "log": prep["log"][-3000:], "audit": aud})
 
-    sample_hist = [[{k: (v if k != "rs" and k != "text" and k != "routines" else "…") for k, v in c.items()} for c in h] for h in hists[:2]]
+    cleanup_projects()
+    sample_hist = [[{k: (v if k not in ("rs", "text", "routines", "project") else "…") for k, v in c.items()} for c in h] for h in hists[:2]]
     cov = core.proof_coverage(run, prep, aud, MODULES, THEOREMS, {
         "explanation": "Kernel-checked theorems about the memo-table protocol under all histories (K3 model); the model is tied to graph_utils.py by replaying "
                        "recorded real histories through the Lean machine; the property itself is explored on the real code: each call's result after a generated "
@@ -606,7 +812,7 @@ def run(run: core.Run) -> int:
         "samples": sample_hist, "histories": len(hists), "sessions": len(sessions), "instrumented_sessions": len(instr_sessions),
         "calls_by_kind": dict(n_calls), "outcomes": dict(outcome), "stats": dict(stats),
         "difference_shapes": {json.dumps(k): v for k, v in buckets.items()},
-        "pool_sizes": {k: len(getattr(pools, k)) for k in ("texts", "bad_texts", "rs", "rs_abort", "rs_switch", "rs_broken", "cli", "cd")},
+        "pool_sizes": {k: len(getattr(pools, k)) for k in ("texts", "bad_texts", "rs", "rs_abort", "rs_switch", "rs_broken", "cli", "cd", "graphs", "rs_ml", "cli_build")},
         "indent_attributes_changed_by_convert": indent_changes, "caller_ops_changed_in_meaning": input_changed,
         "memo_tables_reclaimed_by_new_graphs (id reuse observed, uninstrumented)": reuse_signs,
         "traces_validated_against_impl": int(tv["histories_replayed"]), "trace_validation": dict(tv), "calls_by_lean_verdict": dict(seg_stats),
